@@ -30,6 +30,7 @@ MODES = {
     "multi": "legacy+multi/asc,dag+multi/asc,legacy+multi/desc,dag/asc",
     "paths": "legacy/asc,dag/asc,legacy/desc,dag+multi/shuf",
     "dedup": "legacy/asc,dag/asc,legacy/desc,dag/desc,legacy-dedup/asc,dag-dedup/shuf",
+    "defer": "legacy/asc,dag/asc,legacy/desc,dag/desc",
 }
 END = {"ev": "end", "f": 0, "b": 0, "saw": []}
 MAX_REPORTS = 40
@@ -274,7 +275,7 @@ def go_side(ctx, results, scheds, st, baseline=None, hand_built=True):
 
     for r in results:
         s = by_id[r["id"]]
-        plan = "%s deps=%s%s%s" % (show(s["tree"]), s["deps"], (" ghost=%s (fetch path selects no item)" % s["ghost"]) if s.get("ghost") else "",
+        plan = "%s deps=%s%s%s%s" % (show(s["tree"]), s["deps"], (" kinds=%s" % s["kinds"]) if s.get("kinds") else "", (" ghost=%s (fetch path selects no item)" % s["ghost"]) if s.get("ghost") else "",
                                    (" request %d fails (transport error)" % s["terr"]) if s.get("terr") else "")
         if r["unrealised"]:
             unreal += 1
@@ -464,23 +465,27 @@ def run(ctx):
     # ---- 1. model checking ----------------------------------------------------------------------
     if quick:
         # one run: every tree over <= 4 fetches with its most demanding graph + every graph with <= 2 edges for the trees over <= 3
-        ctx.tlc_must_pass(SPEC, "MC_FT", "MC_FT_4mix.cfg", workers=8, timeout=900, tag="mc-trees<=4-maxdeps+graphs<=2edges(n<=3)")
+        ctx.tlc_must_pass(SPEC, "MC_FT", "MC_FT_4mix.cfg", workers=8, timeout=900, tag="mc-trees<=4-maxdeps+graphs<=2edges(n<=3)+faults(n<=3)")
     else:
-        ctx.tlc_must_pass(SPEC, "MC_FT", "MC_FT_4.cfg", workers=8, timeout=900, tag="mc-trees<=4-maxdeps")
+        ctx.tlc_must_pass(SPEC, "MC_FT", "MC_FT_4.cfg", workers=8, timeout=900, tag="mc-trees<=4-max+direct-deps-every-failing-request")
         ctx.tlc_must_pass(SPEC, "MC_FT", "MC_FT_3all.cfg", workers=8, timeout=1800, tag="mc-trees<=3-all-graphs")
         ctx.tlc_must_pass(SPEC, "MC_FT", "MC_FT_5.cfg", workers=8, timeout=2400, tag="mc-trees<=5-maxdeps")
+    # (both quick and thorough runs above include the fault model: one failing request, bad propagation, FaultOK)
+    r = ctx.tlc(SPEC, "MC_FT", "MC_FT_faultneg.cfg", workers=4, timeout=600, count=False, tag="mc-negative-skip-not-transitive")
+    if r.violated != "Theorem":
+        raise lib.Inconclusive("sanity: a skip that is not transitive must violate the theorem in the model, got %r" % r.error)
     r = ctx.tlc(SPEC, "MC_FT", "MC_FT_bad.cfg", workers=4, timeout=600, count=False, tag="mc-negative-unordered-dependency")
     if r.violated != "Unconditional":
         raise lib.Inconclusive("sanity: a dependency the tree does not order must violate DepsRespected in the model, got %r" % r.error)
 
     # ---- 2. part (a): structural ------------------------------------------------------------------
     if quick:
-        gens = [("all", 4)]      # one TLC run: plain/multi/dedup n <= 4, paths n <= 3
-        n_a = {"plain": 4, "multi": 4, "paths": 3, "dedup": 4}
+        gens = [("all", 4)]      # one TLC run: plain/multi/dedup n <= 4, paths / defer n <= 3
+        n_a = {"plain": 4, "multi": 4, "paths": 3, "dedup": 4, "defer": 3}
         cap_a = {"multi": 4000}
     else:
-        gens = [("plain", 5), ("multi", 4), ("paths", 4), ("dedup", 5)]
-        n_a = {"plain": 5, "multi": 4, "paths": 4, "dedup": 5}
+        gens = [("plain", 5), ("multi", 4), ("paths", 4), ("dedup", 5), ("defer", 4)]
+        n_a = {"plain": 5, "multi": 4, "paths": 4, "dedup": 5, "defer": 4}
         cap_a = {"paths": 40000}
     by_stratum = {}
     for name, n in gens:
@@ -494,7 +499,7 @@ def run(ctx):
     samples = []
     exhaustive_a = True
     plain_obs_path = None
-    for stratum in ("plain", "multi", "paths", "dedup"):
+    for stratum in ("plain", "multi", "paths", "dedup", "defer"):
         cases = [by_stratum.get(stratum, {})[k] for k in sorted(by_stratum.get(stratum, {}))]
         total = len(cases)
         if stratum in cap_a and total > cap_a[stratum]:
@@ -592,7 +597,7 @@ def run(ctx):
         (N("P", N("S", L(1), L(2), L(3)), L(4)), [[], [1], [2], []]),                # chain next to an independent request
     ]
     faults = []
-    for p in small + rng.sample(four, min(len(four), 6 if quick else 40)):
+    for p in small + rng.sample(four, min(len(four), 6 if quick else 25)):
         if len(p["deps"]) >= 2:
             faults += [{"tree": p["tree"], "deps": reduce_deps(p["deps"]), "terr": t} for t in range(1, len(p["deps"]) + 1)]
     rng.shuffle(faults)
@@ -603,6 +608,30 @@ def run(ctx):
         # lock probes of the errored-fetch bookkeeping need a sibling of the failing request: probe every fault plan
         p.update({"grp": "E%04d" % i, "src": "tree", "fail": [], "probe": True, "fault": True})
     plans += faults
+    # (i-k) fetch KINDS: the same trees whose direct dependencies form a forest, realised with root SingleFetch / EntityFetch /
+    # BatchEntityFetch (cmd/ftexec entity.go): entity results are merged INTO the objects / list elements the parent produced,
+    # so parallel siblings take the batch merge path on shared items
+    kinds_plans = []
+    for p in small + four:
+        red = reduce_deps(p["deps"])
+        if len(red) < 2 or any(len(d) > 1 for d in red) or not any(red):
+            continue
+        arr, kd = {}, {}
+        order = sorted(range(1, len(red) + 1), key=lambda f: len(bad_set(red, f)), reverse=True)   # parents before children
+        for f in order:
+            if not red[f - 1]:
+                kd[f], arr[f] = "S", False
+            else:
+                par = red[f - 1][0]
+                kd[f] = "B" if arr[par] else rng.choice(["E", "B", "B"])
+                arr[f] = arr[par] or kd[f] == "B"
+        kinds = [kd[f] for f in range(1, len(red) + 1)]
+        kinds_plans.append({"tree": p["tree"], "deps": red, "kinds": kinds, "src": "tree", "fail": pick_fail(rng, p), "probe": True, "kinded": True})
+    rng.shuffle(kinds_plans)
+    kinds_plans = kinds_plans[:14 if quick else 150]
+    for i, p in enumerate(kinds_plans):
+        p["grp"] = "K%04d" % i
+    plans += kinds_plans
     # (ii) trees the REAL post-processor produced in part (a) (plain stratum), with the declared dependencies
     real = {}
     if plain_obs_path and os.path.exists(plain_obs_path):
@@ -646,9 +675,12 @@ def run(ctx):
     for idx in sorted(by_plan):
         p = plans[idx - 1]
         xs = sorted(by_plan[idx], key=lambda x: json.dumps(x, sort_keys=True))
-        if p.get("fault"):
+        if p.get("kinded"):
             rng.shuffle(xs)
-            chosen += [(p, x) for x in xs[:6 if quick else 60]]
+            chosen += [(p, x) for x in xs[:8 if quick else 40]]
+        elif p.get("fault"):
+            rng.shuffle(xs)
+            chosen += [(p, x) for x in xs[:6 if quick else 30]]   # fault plans: a seed sample of the schedules of each plan
         elif p["src"] in ("real", "fed"):
             rng.shuffle(xs)
             xs = xs[:caps[p["src"]][0 if quick else 1]]
@@ -662,7 +694,7 @@ def run(ctx):
         rng.shuffle(big_tree)
         big_tree = big_tree[:cap]
     chosen += big_tree
-    pr = {"tree": [], "fed": [], "fault": []}
+    pr = {"tree": [], "fed": [], "fault": [], "kinded": []}
     for x in sorted(probes, key=lambda x: json.dumps(x, sort_keys=True)):
         p = pplans[x["idx"] - 1]
         if p.get("fault"):
@@ -670,9 +702,11 @@ def run(ctx):
             # inside a [db] section
             if any(st_["a"] == "TF" and st_["f"] == p["terr"] for st_ in x["steps"]):
                 pr["fault"].append((p, x))
+        elif p.get("kinded"):
+            pr["kinded"].append((p, x))
         else:
             pr[p["src"]].append((p, x))
-    for src, capq, capt in (("tree", 100, 1300), ("fed", 80, 3000), ("fault", 40, 600)):
+    for src, capq, capt in (("tree", 100, 1300), ("fed", 80, 3000), ("fault", 40, 600), ("kinded", 30, 500)):
         rng.shuffle(pr[src])
         chosen += pr[src][:capq if quick else capt]
     hand, feds = [], []
@@ -682,7 +716,8 @@ def run(ctx):
             sc.update({"kind": "fed", "query": p["query"], "mode": p["mode"]})
             feds.append(sc)
         else:
-            sc.update({"kind": "run", "fail": p["fail"], "arena": (i % 2 == 1), "ghost": p.get("ghost", []), "terr": p.get("terr", 0)})
+            sc.update({"kind": "run", "fail": p["fail"], "arena": (i % 2 == 1), "ghost": p.get("ghost", []), "terr": p.get("terr", 0),
+                       "kinds": p.get("kinds", [])})
             hand.append(sc)
     ctx.log("part (b): %d plans (%d trees, %d post-processor trees, %d federated), %d + %d schedules generated, %d hand-built + %d federated chosen" % (
         len(plans), len(small + four + five), len(real), len(fed), len(plain), len(probes), len(hand), len(feds)))
@@ -708,7 +743,7 @@ def run(ctx):
     cov["replayed"] += len(hand) + len(feds)
     cov["fed_plans"] = ["%s %s" % (p["grp"], show(p["tree"])) for p in fed]
     for s in hand + feds:
-        h = lib.sha([s["grp"], s.get("fail"), s.get("arena"), s["steps"]])
+        h = lib.sha([s["grp"], s.get("fail"), s.get("arena"), s.get("kinds"), s["steps"]])
         cov["distinct_all"].add(h)
         if interleaves(s["steps"]):
             cov["distinct"].add(h)
@@ -737,7 +772,9 @@ def run(ctx):
         "dependencies up to identical requests; response-path patterns come from a 6-entry menu and are pruned when the implied nested "
         "dependencies contradict the declared ones (cycle)",
         "part (b): schedules are forced at ld.prepare (before the data lock) and at the data source / RoundTripper; code between two points of "
-        "one request is treated as atomic; hand-built plans use plain SingleFetch requests merging at distinct root fields",
+        "one request is treated as atomic; hand-built plans use SingleFetch requests merging at distinct root fields, plus (family K) "
+        "EntityFetch / BatchEntityFetch requests merging into the objects and list elements of their parent; MultiEntityFetch is executed "
+        "only in the federated runs",
         "the data lock is observed only through ld.merging..ld.merged and through requests parked inside a [db] section (lock probes)",
         "TLC, the harness fakes, fedenv and the example subgraphs are trusted",
     ]
